@@ -244,8 +244,10 @@ def check(tier):
     # exit obligations of the four loops (justify the contracts used above)
     from . import C05
     for cse in [(2, 2, 2, 1)]:
-        ck.add("ssa-exit", "harness.C05", "step_job", dict(cases=[cse]))
-    ck.add("delay-exit", "harness.steps", "delay_step", dict(cases=[(2, 2, 2, 1, 2, 0), (2, 2, 2, 1, 2, 1)], facets=["exit"]))
+        ck.add("ssa-exit", "harness.C05", "step_job", dict(cases=[cse], facets=["exit", "init", "record", "invariant"]))
+    ck.add("delay-exit", "harness.steps", "delay_step", dict(cases=[(2, 2, 2, 1, 2, 0), (2, 2, 2, 1, 2, 1), (2, 2, 2, 0, 2, 0)], facets=["exit", "init"]))
+    ck.add("dv-init", "harness.steps", "delay_volume_step", dict(cases=[(2, 2, 2, 0, 2, 0)], facets=["init"]))
+    ck.add("ssa-init", "harness.C05", "step_job", dict(cases=[(2, 2, 2, 0)], facets=["init", "record"]))
     ck.add("volume-exit", "harness.steps", "volume_step", dict(cases=[(2, 2, 2, 1), (2, 2, 2, 0)], facets=["exit", "init"]))
     ck.extra_cov = dict(exhaustive=True, option_combinations=len(cs))
     ck.bounds = dict(option_lattice="2x3x2x4x2x2 = 192 combinations, all enumerated, x %d model shapes" % (len(cs) // 192),
